@@ -908,7 +908,8 @@ package uhppote
 // what one discovery entry says about the datagram it was decoded from (serial number, firmware version, date);
 // discAt(k): the k-th get-device reply among the datagrams of this call, in arrival order
 //@ macro discEnt(m, b) = m.SerialNumber == wire.u32(b, 4) && m.Version == 256 * b[26] + b[27] && wire.rdate(b, 28, m.Date.abs, m.Date.ns, m.Date.loc)
-//@ macro discIP(m, b) = allocated(m.IpAddress) && len(m.IpAddress) == 16 && m.IpAddress[12] == b[8] && m.IpAddress[13] == b[9] && m.IpAddress[14] == b[10] && m.IpAddress[15] == b[11]
+//@ macro discIP(m, b) = allocated(m.IpAddress) && len(m.IpAddress) == 16 && m.IpAddress[12] == b[8] && m.IpAddress[13] == b[9] && m.IpAddress[14] == b[10] && m.IpAddress[15] == b[11] && m.IpAddress[0] == 0 && m.IpAddress[1] == 0 && m.IpAddress[2] == 0 && m.IpAddress[3] == 0 && m.IpAddress[4] == 0 && m.IpAddress[5] == 0 && m.IpAddress[6] == 0 && m.IpAddress[7] == 0 && m.IpAddress[8] == 0 && m.IpAddress[9] == 0 && m.IpAddress[10] == 255 && m.IpAddress[11] == 255
+//@ macro discAddr(c, b) = c.Address.ip.kind == 1 && c.Address.ip.bits == 16777216 * b[8] + 65536 * b[9] + 256 * b[10] + b[11]
 //@ macro discMask(m, b) = allocated(m.SubnetMask) && len(m.SubnetMask) == 16 && m.SubnetMask[12] == b[12] && m.SubnetMask[13] == b[13] && m.SubnetMask[14] == b[14] && m.SubnetMask[15] == b[15]
 //@ macro discGw(m, b) = allocated(m.Gateway) && len(m.Gateway) == 16 && m.Gateway[12] == b[16] && m.Gateway[13] == b[17] && m.Gateway[14] == b[18] && m.Gateway[15] == b[19]
 //@ macro discMAC(m, b) = allocated(m.MacAddress) && len(m.MacAddress) == 6 && m.MacAddress[0] == b[20] && m.MacAddress[1] == b[21] && m.MacAddress[2] == b[22] && m.MacAddress[3] == b[23] && m.MacAddress[4] == b[24] && m.MacAddress[5] == b[25]
@@ -954,6 +955,7 @@ package uhppote
 //@   ensures exact:   err == nil ==> len(res) == disc.count(recv.bytes, recv.len, old(recv.n), recv.n - old(recv.n))
 //@   ensures entries: err == nil ==> (forall k int :: 0 <= k && k < len(res) ==> discEnt(res[k], discAt(k)))
 //@   ensures ip:      err == nil ==> (forall k int :: 0 <= k && k < len(res) ==> discIP(res[k], discAt(k)))
+//@   ensures addr:    err == nil ==> (forall k int :: 0 <= k && k < len(res) ==> discAddr(res[k], discAt(k)))
 //@   ensures mask:    err == nil ==> (forall k int :: 0 <= k && k < len(res) ==> discMask(res[k], discAt(k)))
 //@   ensures gateway: err == nil ==> (forall k int :: 0 <= k && k < len(res) ==> discGw(res[k], discAt(k)))
 //@   ensures mac:     err == nil ==> (forall k int :: 0 <= k && k < len(res) ==> discMAC(res[k], discAt(k)))
@@ -971,6 +973,7 @@ package uhppote
 //@     invariant entgw: forall k int :: 0 <= k && k < len(replies) ==> discGw(unbox("messages.GetDeviceResponse", replies[k]), discAt(k))
 //@     invariant entmac: forall k int :: 0 <= k && k < len(replies) ==> discMAC(unbox("messages.GetDeviceResponse", replies[k]), discAt(k))
 //@     invariant same: forall k int :: 0 <= k && k < len(controllers) ==> discSame(controllers[k], unbox("messages.GetDeviceResponse", replies[k]))
+//@     invariant addr: forall k int :: 0 <= k && k < len(controllers) ==> discAddr(controllers[k], discAt(k))
 //@     invariant own:   fresh(controllers)
 //@     invariant kind:  forall k int :: 0 <= k && k < len(replies) ==> dyntype(replies[k]) == typeid("messages.GetDeviceResponse")
 //@     invariant ports: forall k int :: 0 <= k && k < len(controllers) ==> (controllers[k].Address.ip.kind == 0 || controllers[k].Address.port == P)
